@@ -10,23 +10,23 @@ sys.path.insert(1, os.path.join(ROOT, ".deps"))
 
 CHECKS = {
     "C01": ("5/C01", "Hypothesis-generated convex vertex sets vs brute-force facets + exact tetrahedral moments (Fraction for lattice input); metamorphic vertex-order independence"),
-    "C02": ("5/C02", "generated closed meshes (polycubes incl. genus 1, extrusions, star meshes; anchored at the origin, scales 1e-8..1e6, every faces_are_convex setting and face index container) vs signed-tetrahedron moments cross-checked with the voxel closed form"),
+    "C02": ("5/C02", "generated closed meshes (polycubes incl. genus 1, extrusions, star meshes; anchored at the origin, scales 1e-8..1e6, every faces_are_convex setting, face index container and vertex container/dtype) vs signed-tetrahedron moments cross-checked with the voxel closed form; metamorphic float32-array vs float64-array twin"),
     "C03": ("5/C03", "model-based operation sequences on 12 shape kinds: exhaustive words of length <=2 (<=3 thorough) plus drawn histories; invariant after every step = equality with a freshly constructed shape; refused operations change nothing; caller arrays scribbled on afterwards"),
-    "C04": ("5/C04", "generated simple polygons in every orientation/plane/normal argument vs shoelace integrals in a harness frame (Fraction for integer polygons)"),
+    "C04": ("5/C04", "generated simple polygons in every orientation/plane/normal argument and vertex container/dtype vs shoelace integrals in a harness frame (Fraction for integer polygons); metamorphic float32-array vs float64-array twin"),
     "C05": ("5/C05", "generated shapes x near-boundary/coordinate-aligned query points vs facet distances, solid-angle winding number and distance-to-core oracles; batch/single/permutation relations"),
     "C06": ("5/C06", "generated polygons/circles/ellipses (also 1e3..1e8 sizes from the origin) x near-boundary/aligned in-plane points vs crossing number and quadratic-form oracles"),
     "C07": ("5/C07", "generated hulls, shuffled faces (sort_faces) and triangulated facets (merge_faces) vs brute-force facet/edge/neighbour structure"),
     "C08": ("5/C08", "reflection-enumerated setters x generated targets: read-back, similarity of defining data, coherence with a fresh shape; bad targets refused atomically"),
     "C09": ("5/C09", "metamorphic: every reflection-enumerated observable of g.x (rotation x translation x scale 1e-3..1e3 x relabelling) vs the transformation rule applied to x"),
-    "C10": ("5/C10", "generated radii/axes/centres (ties, near-ties, needle/disc) vs 40-digit mpmath closed forms (E, Carlson R_G) validated by quadrature"),
-    "C11": ("5/C11", "generated convex cores x rounding radii vs Steiner polynomials built from the exact core oracles and an edge/exterior-angle mean curvature"),
+    "C10": ("5/C10", "generated radii/axes/centres (ties, near-ties, needle/disc; Python and numpy float/int scalar parameters, integer-typed centres) vs 40-digit mpmath closed forms (E, Carlson R_G) validated by quadrature"),
+    "C11": ("5/C11", "generated convex cores x rounding radii vs Steiner polynomials built from the exact core oracles and an edge/exterior-angle mean curvature; metamorphic float32-array vs float64-array twin"),
     "C12": ("5/C12", "generated shapes x wave vectors (generic, special directions, approach sequences, batch sizes) vs exact Fourier integral by divided differences of exp; conjugation/translation/density/batch relations"),
     "C13": ("5/C13", "shapes tangential/cyclic/both/neither by construction vs validity predicates: exact smallest enclosing ball (brute force), centred balls, tangency/equidistance, existence by least-squares misfit"),
     "C14": ("5/C14", "generated circles/ellipses/convex polygons/spheropolygons x angle arrays (any reals, vertex and axis directions) vs ray-boundary intersection from the exact centroid (bisection for rounded shapes)"),
     "C15": ("5/C15", "generated valid/invalid constructor inputs with margins (crossings, off-plane, duplicates, interior points, bad radii) vs exact classification; aliasing of caller arrays probed by mutating them afterwards"),
     "C16": ("5/C16", "exhaustive ordered pairs (q1,q2) of the reflection-enumerated query alphabet on 17 base shapes; untouched-twin comparison, handed-out arrays, argument arrays, repeatability"),
     "C17": ("5/C17", "generated/grid parameters vs half-space intersection from symmetry-generated planes (cross-checked with scipy HalfspaceIntersection); exhaustive n=3..200 for uniform families; call sequences with mixed parameter types evaluated in fresh interpreters"),
-    "C18": ("5/C18", "complete enumeration of the 290 tabulated entries vs hand-entered textbook counts, brute-force facets, regularity and insphere predicates; repeated failed look-ups and near-miss names"),
+    "C18": ("5/C18", "complete enumeration of the 290 tabulated entries vs hand-entered textbook counts, brute-force facets, regularity and insphere predicates; repeated failed look-ups and near-miss names; one cross-family history (keyword calls, foreign names after the other families were built)"),
     "C19": ("5/C19", "generated shapes and hand-built GSD dicts: gsd/repr/to_json round trips and to_hoomd judged by rebuilding the shape from the returned data with the harness oracles"),
     "C20": ("5/C20", "generated polyhedra exported in 7 formats and read back by independent strict parsers; STL tiling/orientation predicates; export leaves observables unchanged; export-change-export histories; inputs 1e6 diameters from the origin and at scale 1e-12"),
 }
